@@ -278,8 +278,10 @@ class World(BaseWorld):
             if not any(box == p for p in g["prods"]):
                 raise self.vio("foreign-production", "generated sentence uses %r, which is not a production "
                                "of the grammar" % (box,))
-        if s.dom == Ty():
-            self.note("sentence_complete")
+        if s.dom != Ty():
+            # the only terminal symbol is Ty(): what is handed out as a sentence has no open symbol left
+            raise self.vio("sentence-incomplete", "generated sentence still has the open symbols %s" % s.dom)
+        self.note("sentence_complete")
         # recorded, not asserted: the derivation is leftmost
         cur, leftmost = [start], True
         for box, off in reversed(list(zip(s.boxes, s.offsets))):
@@ -438,6 +440,15 @@ class World(BaseWorld):
             d = BC.Diagram.fa(a, b) @ BC.Id(c) if op.get("which", 0) % 2 == 0 else BC.Id(c) @ BC.Diagram.ba(a, b)
         else:
             raise HarnessError(kind)
+        if op.get("pre"):
+            # another functor on biclosed diagrams (the identity one) is applied first: what it
+            # computes or remembers must not influence biclosed2rigid
+            idf = BC.Functor(ob=lambda x: x, ar=lambda f: f)
+            try:
+                idf(d)        # its own result is not judged: the statement is about biclosed -> rigid only
+            except Exception:
+                self.note("pre_functor_raised")
+            self.note("pre_functor_applied")
         self.check_translation(d, kind)
         self.note("translations")
         self.note("translate_" + kind)
@@ -569,7 +580,7 @@ class Driver:
                                                         "boxes", "api"]),
                 "a": gen_bty_bounded(gen, d, m), "b": gen_bty_bounded(gen, d, m),
                 "c": gen_bty_bounded(gen, d, m),
-                "which": gen.randint(0, 1)}
+                "which": gen.randint(0, 1), "pre": gen.random() < 0.3}
 
     def next_cfg(self, world):
         sched, gen, fault, cfg = self.s["sched"], self.s["gen"], self.s["fault"], self.cfg
